@@ -103,16 +103,32 @@ class Serializer(object):
 
     def deserialize(self):
         if self.__fileName is None:
-            with BytesIO(self.__inMemorySerializedData) as io:
+            return self.__deserializeFrom(self.__inMemorySerializedData)
+        return self.__deserializeFrom(self.__fileName)
+
+    def __deserializeFrom(self, source):
+        if self.__fileName is None:
+            with BytesIO(source) as io:
                 with gzip.GzipFile(fileobj=io, mode='rb') as g:
                     return pickle.load(g)
 
         if self.__deserializer is not None:
-            return (None,) + self.__deserializer(self.__fileName)
+            return (None,) + self.__deserializer(source)
         else:
-            with open(self.__fileName, 'rb') as f:
+            with open(source, 'rb') as f:
                 with gzip.GzipFile(fileobj=f) as g:
                     return pickle.load(g)
+
+    def __isAcceptable(self, source, acceptable):
+        # A received dump replaces the stored one only if the caller wants it:
+        # afterwards the stored dump is what a restart begins with.
+        if acceptable is None:
+            return True
+        try:
+            return acceptable(self.__deserializeFrom(source))
+        except:
+            logger.exception('Failed to read incoming transition data')
+            return False
 
     def getTransmissionData(self, transmissionID):
         if self.__pid != 0:
@@ -154,7 +170,7 @@ class Serializer(object):
             self.__transmissions.pop(transmissionID, None)
         return data, isFirst, isLast
 
-    def setTransmissionData(self, data):
+    def setTransmissionData(self, data, acceptable=None):
         if data is None:
             return False
         data, isFirst, isLast = data
@@ -167,8 +183,11 @@ class Serializer(object):
                 return False
             self.__incomingTransmissionFile += pickle.to_bytes(data)
             if isLast:
-                self.__inMemorySerializedData = self.__incomingTransmissionFile
+                received = self.__incomingTransmissionFile
                 self.__incomingTransmissionFile = None
+                if not self.__isAcceptable(received, acceptable):
+                    return False
+                self.__inMemorySerializedData = received
                 return True
             return False
 
@@ -194,6 +213,8 @@ class Serializer(object):
         if isLast:
             self.__incomingTransmissionFile.close()
             self.__incomingTransmissionFile = None
+            if not self.__isAcceptable(tmpFile, acceptable):
+                return False
             try:
                 atomicReplace(tmpFile, self.__fileName)
             except:
